@@ -44,12 +44,15 @@ inductive Rd (V : Type) where
   | other     -- anything else (unfulfilled promise: `unimplemented!()`, nothing parsable at the offset, …)
 deriving Repr, DecidableEq
 
-/-- parameters of the value type -/
-structure Params (V : Type) where
-  /-- `Primitive::serialize` succeeds -/
-  ok : V → Bool
-  /-- the value `fulfill(xref_promise, stream)` leaves in `changes` after a save -/
-  xrefVal : V
+/-- what one successful `save` wrote as its cross-reference section -/
+structure SaveInfo where
+  xid : Nat
+  xpos : Nat            -- value written after `startxref`
+  size : Nat            -- /Size of the trailer
+  aw : Nat
+  bw : Nat
+  rows : List XRef      -- /Index [0 rows.length]
+deriving Repr, DecidableEq
 
 /-- one `id gen obj … endobj` in the backend -/
 structure Obj (V : Type) where
@@ -66,6 +69,18 @@ structure Trailer (V : Type) where
   info : Option V      -- `info_dict` (`#[pdf(indirect)]`: written as a new object by every `to_dict`)
   prev : Option Nat
 deriving Repr
+
+/-- parameters of the value type -/
+structure Params (V : Type) where
+  /-- `Primitive::serialize` succeeds -/
+  ok : V → Bool
+  /-- the value `fulfill(xref_promise, stream)` leaves in `changes` after a save: the cross-reference
+      stream (`Stream<XRefInfo>` without the trailer entries) of that save -/
+  xrefVal : SaveInfo → V
+  /-- the cross-reference stream object as it stands in the file: the same stream with the trailer entries
+      (`/Size /Prev /Root /Info /ID`) merged into its dictionary; arguments: the trailer, the number of the
+      info object written by this save -/
+  xrefRec : Trailer V → Option Nat → SaveInfo → V
 
 /-- one cross-reference section in the backend (classic table or stream) with its trailer -/
 structure Sec where
@@ -95,8 +110,8 @@ structure Doc (V : Type) where
 /-- how many bytes the records of one save take (serialisation itself is not modelled) -/
 structure Layout where
   recLen : Nat → Nat   -- object number ↦ bytes of `id gen obj … endobj\n`
-  xrefLen : Nat        -- bytes of the cross-reference stream object
-  tailLen : Nat        -- bytes of `\nstartxref\n…\n%%EOF`
+  xrefLen : SaveInfo → Nat   -- bytes of the cross-reference stream object of that save
+  tailLen : SaveInfo → Nat   -- bytes of `\nstartxref\n…\n%%EOF`
 
 variable {V : Type}
 
@@ -266,15 +281,6 @@ def writeChanges (P : Params V) (L : Layout) (start : Nat) :
       else ({ w with refs := refs }, .err)                         -- primitive.serialize(..)?
     else (w, .panic)                                               -- self.entries[id] out of range
 
-structure SaveInfo where
-  xid : Nat
-  xpos : Nat            -- value written after `startxref`
-  size : Nat            -- /Size of the trailer
-  aw : Nat
-  bw : Nat
-  rows : List XRef      -- /Index [0 rows.length]
-deriving Repr, DecidableEq
-
 /-- `Trailer::from_dict(trailer_dict, &self.resolver())` at the end of `save` / in `load_data` -/
 def loadTrailer (st : St V) (root : Nat × Nat) (info : Option Nat) (prev : Option Nat) : Out (Trailer V) :=
   match resolve st root.1 with
@@ -310,12 +316,16 @@ def prep (d : Doc V) : Prep V :=
 
 /-- the storage after the revision is complete: cross-reference stream object and section appended,
     `fulfill(xref_promise, stream)` (= `update`: pending value, cache dropped), `startxref` -/
+def saveInfoOf (pr : Prep V) (w : Written V) (refs rows : List XRef) : SaveInfo :=
+  ⟨pr.xid, w.len - pr.st2.start, pr.size, (widths refs).1, (widths refs).2, rows⟩
+
 def commit (P : Params V) (L : Layout) (d : Doc V) (pr : Prep V) (w : Written V) (refs rows : List XRef) : St V :=
   { pr.st2 with
-      refs := refs, changes := chInsert pr.st2.changes pr.xid (P.xrefVal, 0), cache := [],
-      objs := w.objs ++ [⟨w.len, pr.xid, 0, P.xrefVal, []⟩],
+      refs := refs, changes := chInsert pr.st2.changes pr.xid (P.xrefVal (saveInfoOf pr w refs rows), 0), cache := [],
+      objs := w.objs ++ [⟨w.len, pr.xid, 0, P.xrefRec d.tr pr.infoRef (saveInfoOf pr w refs rows), []⟩],
       secs := pr.st2.secs ++ [⟨w.len, [⟨0, rows⟩], pr.size, d.tr.prev, d.tr.root, pr.infoRef⟩],
-      len := w.len + L.xrefLen + L.tailLen, startxref := w.len - pr.st2.start }
+      len := w.len + L.xrefLen (saveInfoOf pr w refs rows) + L.tailLen (saveInfoOf pr w refs rows),
+      startxref := w.len - pr.st2.start }
 
 /-- `Storage::save` (repaired). On failure nothing of the attempt is left in the backend and the
     promise for the cross-reference stream is withdrawn; a table the reader would refuse is not written. -/
@@ -333,7 +343,7 @@ def save (P : Params V) (L : Layout) (d : Doc V) : Doc V × Out SaveInfo :=
       ({ d with st := { pr.st2 with refs := refs.dropLast } }, .err)
     | some rows =>
       let st3 := commit P L d pr w refs rows
-      let info : SaveInfo := ⟨pr.xid, xpos, pr.size, (widths refs).1, (widths refs).2, rows⟩
+      let info : SaveInfo := saveInfoOf pr w refs rows
       match loadTrailer st3 d.tr.root pr.infoRef d.tr.prev with
       | .ok tr => (⟨st3, tr⟩, .ok info)
       | .err => (⟨st3, d.tr⟩, .err)
@@ -482,12 +492,13 @@ def saveOld (P : Params V) (L : Layout) (d : Doc V) : Doc V × Out SaveInfo :=
     | some rows =>
       let (aw, bw) := widths refs
       let sec : Sec := ⟨w.len, [⟨0, rows⟩], size, d.tr.prev, d.tr.root, infoRef⟩
-      let xobj : Obj V := ⟨w.len, xid, 0, P.xrefVal, []⟩
+      let xinfo : SaveInfo := ⟨xid, xpos, size, aw, bw, rows⟩
+      let xobj : Obj V := ⟨w.len, xid, 0, P.xrefRec d.tr infoRef xinfo, []⟩
       let st3 : St V :=
-        { st2 with refs := refs, changes := chInsert st2.changes xid (P.xrefVal, 0), cache := [],
+        { st2 with refs := refs, changes := chInsert st2.changes xid (P.xrefVal xinfo, 0), cache := [],
                    objs := w.objs ++ [xobj], secs := st2.secs ++ [sec],
-                   len := w.len + L.xrefLen + L.tailLen, startxref := xpos }
-      (⟨st3, d.tr⟩, .ok ⟨xid, xpos, size, aw, bw, rows⟩)
+                   len := w.len + L.xrefLen xinfo + L.tailLen xinfo, startxref := xpos }
+      (⟨st3, d.tr⟩, .ok xinfo)
   | (w, o) => ({ d with st := { st2 with refs := w.refs, objs := w.objs, len := w.len } },
                match o with | .ok _ => .err | .err => .err | .panic => .panic | .oof => .oof)
 
